@@ -22,12 +22,22 @@ pub struct Snap {
 impl Snap {
     pub fn take<'a, T: QueryServerTransaction<'a>>(txn: &mut T) -> Result<Snap, OperationError> {
         let entries = crate::dump::search_all(txn)?;
-        let state = entries.iter().map(|e| (e.get_uuid(), entry_state(e))).collect();
+        // A uuid can be carried by more than one stored entry (a conflict entry keeps the uuid it
+        // had, and the uuid may be created again): the per-uuid state is Live if any of them is
+        // live, and liveness of an entry is judged on that entry alone.
+        let mut state: BTreeMap<Uuid, EState> = BTreeMap::new();
+        for e in &entries {
+            let st = entry_state(e);
+            let cur = state.entry(e.get_uuid()).or_insert(st);
+            if st == EState::Live {
+                *cur = EState::Live;
+            }
+        }
         let domain = txn.get_domain_name().to_string();
         Ok(Snap { entries, state, domain })
     }
     pub fn live(&self) -> impl Iterator<Item = &EntryArc> {
-        self.entries.iter().filter(|e| self.state.get(&e.get_uuid()) == Some(&EState::Live))
+        self.entries.iter().filter(|e| entry_state(e) == EState::Live)
     }
     pub fn is_live(&self, u: &Uuid) -> bool {
         self.state.get(u) == Some(&EState::Live)
@@ -108,7 +118,11 @@ pub fn memberof(snap: &Snap) -> Vec<Finding> {
             out.push(Finding {
                 property: "C17",
                 oracle: "memberof-closure",
-                signature: "memberof".into(),
+                signature: match (got_mo.difference(&exp_mo).next().is_some(), exp_mo.difference(&got_mo).next().is_some()) {
+                    (true, false) => "memberof: stale group kept (no membership path)".to_string(),
+                    (false, true) => "memberof: group missing".to_string(),
+                    _ => "memberof: stale and missing".to_string(),
+                },
                 summary: format!("entry {u}: memberof {:?} but closure over live groups gives {:?}", got_mo, exp_mo),
             });
         }
